@@ -1,4 +1,5 @@
 //! `mc` — bounded exhaustive exploration of busstoptaktik/geodesy (see /verif/DESIGN.md)
+mod catalog;
 mod engine;
 mod props;
 mod util;
